@@ -1,2 +1,151 @@
-(* Props_C01_single — reserved. *)
+(* Props_C01_single — the "routable" half of C10 (agent p-e2e): every valid path-only pattern, registered
+   alone, is reached by every valid substitution of its wildcards.  Only statements closed by [exact],
+   each followed by Print Assumptions, with non-vacuity examples.
+   Definitions: SingleRoute.v (sigma_ok, no_mid_catch, follow_ok), EndToEnd.v (nocatch),
+   EndToEnd2.v (e2e_fuel, final_txn), WFDef.v (valid_patternb, valid_rinfo), StaticEquiv2.v (okpath). *)
 From FoxBase Require Import Bytes.
+From FoxRoute Require Import Node Lookup Spec Tree MapSpec Corr CorrHist WFDef TreeMap2
+  SpecSound StaticEquiv StaticEquiv2 EndToEnd EndToEnd2 SingleRoute.
+Open Scope char_scope.
+
+(* in a valid path pattern every wildcard is followed by '/' or ends the pattern *)
+Theorem C10_valid_path_follow : forall p, valid_patternb p = true -> is_path_pattern p = true ->
+  follow_ok (tokenize p) = true.
+Proof. exact valid_path_follow. Qed.
+Print Assumptions C10_valid_path_follow.
+
+(* a valid substitution is a match in the sense of the specification *)
+Theorem C10_sigma_matches : forall ts sg, forallb tok_ok ts = true -> follow_ok ts = true ->
+  sigma_ok ts sg -> Matches ts (subst ts sg) 0 sg.
+Proof. exact sigma_matches. Qed.
+Print Assumptions C10_sigma_matches.
+
+(* without an infix catch-all a request determines the values *)
+Theorem C10_match_unique : forall ts s v1 v2, no_mid_catch ts = true ->
+  Matches ts s 0 v1 -> Matches ts s 0 v2 -> v1 = v2.
+Proof. exact Matches_unique. Qed.
+Print Assumptions C10_match_unique.
+
+(* ROUTABLE: for every valid path-only pattern p (any method, any route id) and every valid substitution
+   sg of its wildcards — request without '*' byte and without empty segment, or pattern without
+   catch-all —: insertion in the empty router succeeds, and looking up the substituted request (any
+   Host, fuel >= closed form) returns p with parameters named after p's wildcards, in order, whose
+   substitution reproduces the request; they are exactly sg when no catch-all is followed by pattern text *)
+Theorem C10_single_route : forall m ri sg host,
+  let p := rpat (ri_route ri) in
+  let req := subst (tokenize p) sg in
+  valid_rinfo ri -> is_path_pattern p = true -> sigma_ok (tokenize p) sg ->
+  okpath req = true \/ nocatch (tokenize p) = true ->
+  exists t', insert empty_txn m ri = ROk t' /\
+    forall fuel, e2e_fuel req (t_roots t') m <= fuel ->
+    exists ps, direct_obs (roots_lookup fuel (t_roots t') m host req false [] []) = Some (p, ps) /\
+               map fst ps = wildcard_names (tokenize p) /\
+               subst (tokenize p) (map snd ps) = req /\
+               (no_mid_catch (tokenize p) = true -> map snd ps = sg).
+Proof. exact single_route_thm. Qed.
+Print Assumptions C10_single_route.
+
+(* the same through the history interface (one Handle on a fresh router) *)
+Theorem C10_single_route_history : forall o sg host,
+  let p := h_pat o in
+  let req := subst (tokenize p) sg in
+  h_kind o = KHandle -> valid_method_handle (h_method o) = true -> h_valid o = true -> hop_ok o ->
+  is_path_pattern p = true -> sigma_ok (tokenize p) sg ->
+  okpath req = true \/ nocatch (tokenize p) = true ->
+  forall fuel, e2e_fuel req (t_roots (final_txn [o])) (h_method o) <= fuel ->
+  exists ps, direct_obs (roots_lookup fuel (t_roots (final_txn [o])) (h_method o) host req false [] []) = Some (p, ps) /\
+             map fst ps = wildcard_names (tokenize p) /\
+             subst (tokenize p) (map snd ps) = req /\
+             (no_mid_catch (tokenize p) = true -> map snd ps = sg).
+Proof. exact single_route_history_thm. Qed.
+Print Assumptions C10_single_route_history.
+
+(* ---- non-vacuity ---- *)
+Ltac sigma_tac := simpl; repeat split; try discriminate;
+  try (exfalso; match goal with H : [] <> [] |- _ => apply H; reflexivity end);
+  try (intros H; first [ exfalso; apply H; reflexivity
+                       | simpl in H; repeat (destruct H as [H|H]; [discriminate H|]); exact H ]).
+
+Definition sr_pat : bytes := S2B "/a/{x}/b-{y}/*{w}/c".
+Definition sr_ri : rinfo := WFDef.mk_ri sr_pat 1.
+Definition sr_sg : list bytes := [S2B "v1"; S2B "v2"; S2B "p/q"].
+Definition sr_req : bytes := S2B "/a/v1/b-v2/p/q/c".
+
+Example sr_hyps :
+  valid_rinfo sr_ri /\ is_path_pattern sr_pat = true /\ sigma_ok (tokenize sr_pat) sr_sg
+  /\ subst (tokenize sr_pat) sr_sg = sr_req /\ okpath sr_req = true /\ no_mid_catch (tokenize sr_pat) = false.
+Proof.
+  split; [split; reflexivity|]. split; [reflexivity|]. split; [|repeat split].
+  unfold sr_pat, sr_sg. sigma_tac.
+Qed.
+
+(* the theorem's instance, and the computed answer *)
+Example sr_instance :
+  exists t', insert empty_txn m_get sr_ri = ROk t' /\
+    exists ps, direct_obs (roots_lookup big_fuel (t_roots t') m_get (S2B "h.com") sr_req false [] []) = Some (sr_pat, ps) /\
+               map fst ps = [S2B "x"; S2B "y"; S2B "w"] /\ subst (tokenize sr_pat) (map snd ps) = sr_req.
+Proof.
+  destruct sr_hyps as (Hv & Hp & Hsg & Hreq & Hok & _).
+  destruct (C10_single_route m_get sr_ri sr_sg (S2B "h.com") Hv Hp Hsg (or_introl Hok)) as (t' & Hi & H).
+  exists t'. split; [exact Hi|].
+  assert (t' = match insert empty_txn m_get sr_ri with ROk t => t | _ => empty_txn end) as Et by (rewrite Hi; reflexivity).
+  destruct (H big_fuel) as (ps & H1 & H2 & H3 & _).
+  { apply Nat.leb_le. rewrite Et. vm_compute. reflexivity. }
+  exists ps. auto.
+Qed.
+
+Example sr_compute :
+  match insert empty_txn m_get sr_ri with
+  | ROk t' => direct_obs (roots_lookup big_fuel (t_roots t') m_get [] sr_req false [] []) =
+              Some (sr_pat, [(S2B "x", S2B "v1"); (S2B "y", S2B "v2"); (S2B "w", S2B "p/q")])
+  | _ => False
+  end.
+Proof. vm_compute. reflexivity. Qed.
+
+(* a suffix catch-all: the values are exactly the substituted ones (value may contain and end with '/') *)
+Definition sr2_pat : bytes := S2B "/files/{user}/*{path}".
+Definition sr2_sg : list bytes := [S2B "bob"; S2B "docs/a.txt/"].
+Example sr2_hyps :
+  valid_rinfo (WFDef.mk_ri sr2_pat 2) /\ sigma_ok (tokenize sr2_pat) sr2_sg /\ no_mid_catch (tokenize sr2_pat) = true
+  /\ okpath (subst (tokenize sr2_pat) sr2_sg) = true.
+Proof. split; [split; reflexivity|]. split; [|split; reflexivity]. unfold sr2_pat, sr2_sg. sigma_tac. Qed.
+Example sr2_compute :
+  match insert empty_txn (S2B "PURGE") (WFDef.mk_ri sr2_pat 2) with
+  | ROk t' => option_map (fun x => map snd (snd x))
+                (direct_obs (roots_lookup big_fuel (t_roots t') (S2B "PURGE") [] (subst (tokenize sr2_pat) sr2_sg) false [] []))
+              = Some sr2_sg
+  | _ => False
+  end.
+Proof. vm_compute. reflexivity. Qed.
+
+(* the restriction of the last clause is needed: with a catch-all followed by pattern text the
+   returned values may differ from the substituted ones (shortest value first), while their
+   substitution still reproduces the request *)
+Definition sr3_pat : bytes := S2B "/*{a}/x/*{b}".
+Definition sr3_sg : list bytes := [S2B "p/x/q"; S2B "r"].
+Example sr3_hyps :
+  valid_rinfo (WFDef.mk_ri sr3_pat 3) /\ sigma_ok (tokenize sr3_pat) sr3_sg /\ no_mid_catch (tokenize sr3_pat) = false
+  /\ okpath (subst (tokenize sr3_pat) sr3_sg) = true.
+Proof. split; [split; reflexivity|]. split; [|split; reflexivity]. unfold sr3_pat, sr3_sg. sigma_tac. Qed.
+Example sr3_differs :
+  match insert empty_txn m_get (WFDef.mk_ri sr3_pat 3) with
+  | ROk t' => direct_obs (roots_lookup big_fuel (t_roots t') m_get [] (subst (tokenize sr3_pat) sr3_sg) false [] []) =
+              Some (sr3_pat, [(S2B "a", S2B "p"); (S2B "b", S2B "q/x/r")])
+              /\ subst (tokenize sr3_pat) [S2B "p"; S2B "q/x/r"] = subst (tokenize sr3_pat) sr3_sg
+  | _ => False
+  end.
+Proof. vm_compute. split; reflexivity. Qed.
+
+(* a pattern without catch-all: no condition on the values beyond sigma_ok (a '*' byte is fine) *)
+Definition sr4_pat : bytes := S2B "/u/{id}/edit".
+Example sr4_hyps :
+  valid_rinfo (WFDef.mk_ri sr4_pat 4) /\ sigma_ok (tokenize sr4_pat) [S2B "*7*"] /\ nocatch (tokenize sr4_pat) = true
+  /\ okpath (subst (tokenize sr4_pat) [S2B "*7*"]) = false.
+Proof. split; [split; reflexivity|]. split; [|split; reflexivity]. unfold sr4_pat. sigma_tac. Qed.
+Example sr4_compute :
+  match insert empty_txn m_get (WFDef.mk_ri sr4_pat 4) with
+  | ROk t' => direct_obs (roots_lookup big_fuel (t_roots t') m_get [] (S2B "/u/*7*/edit") false [] []) =
+              Some (sr4_pat, [(S2B "id", S2B "*7*")])
+  | _ => False
+  end.
+Proof. vm_compute. reflexivity. Qed.
